@@ -44,8 +44,10 @@ def mt_seq(rng, maxsz=None, n=None, with_rules=None, attempts=None):
         pairs = []
         for nm in names:
             r = rng.random()
-            if r < 0.4:
+            if r < 0.3:
                 pairs += [nm, "z%d" % rng.randint(0, 1)]
+            elif r < 0.5:
+                pairs += [nm, rng.choice(names)]      # onto a name that may be present itself, renamed or not
             elif r < 0.6:
                 pairs += [nm, nm]
         ops.append("mt defrename 0 " + " ".join(pairs))
